@@ -16,6 +16,7 @@ Val(mode, i) == CASE mode = "num" -> ToString(i) [] mode = "bad" -> BadVal(i) []
 \* other key alphabets: keys that differ in letter case only, keys that are prefixes of each other, digits and underscores
 KeysOf(ks) == CASE ks = 1 -> Keys [] ks = 2 -> <<"name", "Name", "NAME", "id", "ID", "Id">> [] ks = 3 -> <<"a", "ab", "abc", "B", "b", "Ab">>
                 [] ks = 4 -> <<"k1", "k10", "k2", "K1", "_k", "k_">>
+                [] ks = 5 -> <<"9", "10", "1a", "1", "01", "2">>        \* (data maps only) keys that look like numbers: any fixed order will do
 RECURSIVE ObjSrcK(_, _, _)
 ObjSrcK(n, mode, ks) == IF n = 0 THEN "" ELSE (IF n = 1 THEN "" ELSE ObjSrcK(n - 1, mode, ks) \o ", ") \o KeysOf(ks)[n] \o ": " \o Val(mode, n)
 ObjK(n, mode, ks) == "{" \o ObjSrcK(n, mode, ks) \o "}"
@@ -33,7 +34,7 @@ RenderCases ==
 \cup {Render("@dump(" \o Obj(n, Num) \o ")", <<>>, <<>>, "dump-object") : n \in 2..6}
 \cup {Render("{{ o }}|@dump(o)|{{ [o, o] }}", <<[k |-> "o", v |-> ObjData(n)]>>, <<>>, "data-object") : n \in 2..6}
 \cup {Render("{{ " \o ObjK(n, Num, ks) \o " }}|@dump(" \o ObjK(n, Num, ks) \o ")", <<>>, <<>>, "print-object-keys") : n \in 2..6, ks \in 2..4}
-\cup {Render("{{ o }}|@dump(o)|{{ [o, o] }}", <<[k |-> "o", v |-> ObjDataK(n, ks)]>>, <<>>, "data-object-keys") : n \in 2..6, ks \in 2..4}
+\cup {Render("{{ o }}|@dump(o)|{{ [o, o] }}", <<[k |-> "o", v |-> ObjDataK(n, ks)]>>, <<>>, "data-object-keys") : n \in 2..6, ks \in 2..5}
 \cup {Render("{{ x = " \o ObjK(n, Num, ks) \o " }}{{ x }}@each(o in [x, x]){{ o }};@end", <<>>, <<>>, "assigned-object-keys") : n \in 2..6, ks \in 2..4}
 \cup {Render("{{ " \o ObjK(n, BadV, ks) \o " }}", <<>>, <<>>, "failing-entries-keys") : n \in 2..6, ks \in 2..4}
 \cup {Render("{{ " \o Obj(n, BadV) \o " }}", <<>>, <<>>, "failing-entries") : n \in 2..6}
